@@ -33,7 +33,6 @@ CONSTANTS
   LegCounts,   \* e.g. {2, 3}
   Dirs,        \* subset of {"asc", "desc"}
   CutFix,      \* FALSE: analyzeCuts as coded (finding F-C08-1); TRUE: repaired
-  MergeFix,    \* FALSE: dag.Merge always nullsMax (finding F-C08-2); TRUE: follows the lifted sort
   EmitMod,     \* 0: no export; else terminal states with Hash % EmitMod = EmitRem are printed
   EmitRem
 
@@ -294,7 +293,7 @@ AllOps == <<"WG", "WK", "CK", "CU", "CZ", "PY", "PK", "RZ", "DK", "DX", "SU", "S
 CoreProgs == << <<>>, <<"WG">>, <<"WK">>, <<"CK", "H2">>, <<"PY", "T2">>, <<"H1">>, <<"H2">>, <<"T2">>, <<"SU">>, <<"SG">>,
                <<"AG">>, <<"AK">>, <<"XG">>, <<"VG">>, <<"LG">>, <<"A0">>, <<"WK", "AK">>, <<"UQ">>, <<"AG", "SG">>,
                <<"SR", "H2">>, <<"RZ", "T1">>, <<"DK", "H2">>,
-               <<"CU">>, <<"CU", "H2">>, <<"SXR">> >>      \* the last three reach the known defects F1, F2
+               <<"CU">>, <<"CU", "H2">>, <<"SXR">> >>      \* CU reaches the known defect F1; SXR a descending sort over nulls
 Len1Progs == << <<>> >> \o [i \in 1..Len(AllOps) |-> <<AllOps[i]>>]
 Len2Progs == Len1Progs \o [i \in 1..(Len(AllOps) * Len(AllOps)) |-> <<AllOps[((i - 1) \div Len(AllOps)) + 1], AllOps[((i - 1) % Len(AllOps)) + 1]>>]
 PROGS == TLCEval(
@@ -374,12 +373,16 @@ PlanOf(prog, desc) ==
        CASE Kind(op) = "summarize" ->
               [base EXCEPT !.legs = Append(legs0, PO(op, "out")), !.tail = <<PO(op, "in")>> \o Tail(tail0)]
          [] Kind(op) = "sort" ->
-              IF cp.mrg
+              \* only an ascending, nulls-last sort is lifted: the merge that replaces it
+              \* orders by the key with nulls as the largest value (op.Reverse ||
+              \* op.NullsFirst || Order == Desc => return); a merge inserted by
+              \* parallelizeSeqScan for the sort key then stays in front of the sort
+              IF SortKeyOf(op).desc THEN base
+              ELSE IF cp.mrg
               THEN IF SortKeyOf(op) = cp.key
-                   THEN [base EXCEPT !.legs = Append(legs0, PO(op, "")), !.tail = Tail(tail0),
-                                     !.mc = IF MergeFix THEN SortC(cp.key.f, cp.key.desc) ELSE mc0]
+                   THEN [base EXCEPT !.legs = Append(legs0, PO(op, "")), !.tail = Tail(tail0)]
                    ELSE base
-              ELSE \* combine replaced by a merge on the sort expression; Args[0].Order ignores Reverse (as coded)
+              ELSE \* combine replaced by a merge on the sort expression
                    [base EXCEPT !.legs = Append(legs0, PO(op, "")), !.tail = Tail(tail0), !.fan = "merge",
                                 !.mc = MergeC(SortKeyOf(op).f, FALSE)]
          [] Kind(op) \in {"head", "tail"} -> [base EXCEPT !.legs = Append(legs0, PO(op, ""))]
@@ -620,17 +623,13 @@ SeqResultOf(pl, rw, m, lor, d, pg) ==
       ops == Expand(pg)
   IN ApplyOps(Plain(SubSeq(ops, Len(pl.filter) + 1, Len(ops))), ScanStream(rw, ps, d, pl.filter, pl.slicer))
 
-\* known defects of the unchanged tree, modelled as coded:
+\* known defect of the unchanged tree, modelled as coded:
 \*  F1: a cut in the legs removes the field the fan-in merges on
-\*  F2: the lifted sort puts nulls last for desc, the merge puts them first
+\* (F2 -- a lifted descending sort puts nulls last, the merge first -- was repaired
+\* in the repository: such sorts are no longer lifted, see PlanOf.)
 TaintOf(pl, rw, d, prts) ==
-  (IF pl.fan = "merge" /\ \E i \in 1..Len(pl.legs) : Kind(pl.legs[i].op) = "cut" /\ \A j \in 1..Len(CutArgs(pl.legs[i].op)) : CutArgs(pl.legs[i].op)[j][1] # pl.mc.f
-   THEN {"F1"} ELSE {})
-  \cup
-  (IF /\ pl.fan = "merge" /\ pl.legs # <<>> /\ Kind(pl.legs[Len(pl.legs)].op) = "sort"
-      /\ SortC(pl.mc.f, pl.mc.desc).nmax # pl.mc.nmax
-      /\ \E l \in DOMAIN prts : LET o == LegOutOf(pl, rw, d, prts[l]).s IN \E i \in 1..Len(o) : Nullish(Get(o[i], pl.mc.f))
-   THEN {"F2"} ELSE {})
+  IF pl.fan = "merge" /\ \E i \in 1..Len(pl.legs) : Kind(pl.legs[i].op) = "cut" /\ \A j \in 1..Len(CutArgs(pl.legs[i].op)) : CutArgs(pl.legs[i].op)[j][1] # pl.mc.f
+  THEN {"F1"} ELSE {}
 
 RowJson(r) == TLCEval([f \in {g \in Fields : r[g].t # "abs"} |-> r[f]])
 RowsJson(s) == TLCEval([i \in 1..Len(s) |-> RowJson(s[i])])
